@@ -211,17 +211,33 @@ type BlockResult struct {
 
 // execBlock runs one block on one replica.
 func execBlock(r *Replica, chainID string, b *BlockSpec, lastAppHash []byte) (*BlockResult, error) {
+	return execBlockMid(r, chainID, b, lastAppHash, nil)
+}
+
+// execBlockMid runs one block; mid (if not nil) is called after BeginBlock and after every DeliverTx
+// (k = number of transactions delivered so far) - the place where a node serves mempool checks and queries.
+func execBlockMid(r *Replica, chainID string, b *BlockSpec, lastAppHash []byte, mid func(k int) error) (*BlockResult, error) {
 	res := &BlockResult{}
 	var err error
 	if res.Begin, err = r.BeginBlock(b.BeginReq(chainID, lastAppHash)); err != nil {
 		return nil, err
 	}
-	for _, tx := range b.Txs {
+	if mid != nil {
+		if err := mid(0); err != nil {
+			return nil, err
+		}
+	}
+	for k, tx := range b.Txs {
 		dr, err := r.DeliverTx(tx)
 		if err != nil {
 			return nil, err
 		}
 		res.Txs = append(res.Txs, dr)
+		if mid != nil {
+			if err := mid(k + 1); err != nil {
+				return nil, err
+			}
+		}
 	}
 	if res.End, err = r.EndBlock(b.Height); err != nil {
 		return nil, err
